@@ -459,6 +459,49 @@ func dependsOn(v, target ssa.Value) bool {
 	return f(v)
 }
 
+// mustDependOn: v depends on target on EVERY path that produces it — a phi depends only if
+// all of its incoming values do; any other instruction if one of its operands does.
+func mustDependOn(v, target ssa.Value) bool {
+	memo := map[ssa.Value]int{} // 1 yes, 2 no, 3 in progress (treated as yes: loop-carried)
+	var f func(v ssa.Value) bool
+	f = func(v ssa.Value) bool {
+		if v == target {
+			return true
+		}
+		switch memo[v] {
+		case 1, 3:
+			return true
+		case 2:
+			return false
+		}
+		memo[v] = 3
+		res := false
+		if phi, ok := v.(*ssa.Phi); ok {
+			res = len(phi.Edges) > 0
+			for _, e := range phi.Edges {
+				if !f(e) {
+					res = false
+					break
+				}
+			}
+		} else if ins, ok := v.(ssa.Instruction); ok {
+			for _, op := range operandsOf(ins) {
+				if f(op) {
+					res = true
+					break
+				}
+			}
+		}
+		if res {
+			memo[v] = 1
+		} else {
+			memo[v] = 2
+		}
+		return res
+	}
+	return f(v)
+}
+
 // retVals returns the values a Return yields, looking through the locals go/ssa introduces
 // for named results and for functions with defers (`*t3 = v; rundefers; t9 = *t3; return t9`).
 func retVals(ret *ssa.Return) []ssa.Value {
